@@ -146,6 +146,17 @@ impl Env {
     }
 }
 
+/// Backup options as the harness uses them: snapshots are identified by their label, so parent
+/// detection must group by host and paths only (the default also groups by label and would never
+/// find a parent among differently labelled snapshots).
+pub fn popts() -> rustic_core::ParentOptions {
+    rustic_core::ParentOptions::default().group_by(Some("host,paths".parse::<rustic_core::SnapshotGroupCriterion>().expect("criterion")))
+}
+
+pub fn bopts() -> BackupOptions {
+    BackupOptions::default().parent_opts(popts())
+}
+
 pub fn snap_opts(label: &str, time_s: i64) -> RusticResult<SnapshotFile> {
     let time = jiff::Timestamp::from_second(time_s)
         .expect("ts")
